@@ -48,6 +48,7 @@ struct Workload {
   // dimensions per attribute type, 0 = automatic range. May be smaller or
   // larger than the attribute's component count.
   int xq[5] = {0, 0, 0, 0, 0};
+  int xo = 0;  // which of four origins the explicit quantization box uses
   int split = -1;
   int builtin = -1;
   int compress_conn = -1;
